@@ -319,7 +319,8 @@ def project(prop, b, ev, ctx):
                     x = parse_dec(v)
                     return "number:%s" % x if x is not None else v
                 return v
-            return (ok, tuple(sorted((a, norm(a, v)) for a, v in b.attrs if a in NAMED_ATTRS)))
+            # the attributes, and next to them what the step moved (amounts reported are judged against it)
+            return (ok, (tuple(sorted((a, norm(a, v)) for a, v in b.attrs if a in NAMED_ATTRS)), flows(b, ev)))
     return None
 
 
